@@ -2,11 +2,13 @@ package main
 
 import (
 	"bytes"
+	"encoding/base64"
 	"encoding/json"
 	"fmt"
 	"math"
 	"math/big"
 	"os"
+	"strconv"
 	"strings"
 	"time"
 
@@ -311,7 +313,13 @@ func init() {
 			cw.add("jout jsonmerged "+msgsString(ms), impl, "N jsonout far-apart-keys", prop)
 		}
 		for _, sec := range secEdges {
-			run([]rscp.Message{{Tag: rscp.INFO_UTC_TIME, DataType: rscp.Timestamp, Value: time.Unix(sec, 5).UTC()}}, fmt.Sprintf("time-edge sec=%d", sec), true)
+			for _, ns := range []int64{0, 5, 999999999} {
+				tm := rscp.Message{Tag: rscp.INFO_UTC_TIME, DataType: rscp.Timestamp, Value: time.Unix(sec, ns).UTC()}
+				run([]rscp.Message{tm}, fmt.Sprintf("time-edge sec=%d ns=%d", sec, ns), true)
+				if ns == 0 {
+					run([]rscp.Message{{Tag: rscp.BAT_DATA, DataType: rscp.Container, Value: []rscp.Message{tm}}}, fmt.Sprintf("time-edge sec=%d nested", sec), true)
+				}
+			}
 		}
 		for _, f := range []float64{math.NaN(), math.Inf(1), math.Inf(-1)} {
 			run([]rscp.Message{{Tag: rscp.EMS_POWER_PV, DataType: rscp.Double64, Value: f}}, "nan-inf", true)
@@ -385,6 +393,7 @@ func mergedOK(ms []rscp.Message, o map[string]interface{}) string {
 	type group struct {
 		containers [][]rscp.Message
 		scalars    int
+		last       rscp.Message // the last scalar that arrived under the key
 	}
 	groups := map[string]*group{}
 	for _, m := range ms {
@@ -396,6 +405,7 @@ func mergedOK(ms []rscp.Message, o map[string]interface{}) string {
 			groups[k].containers = append(groups[k].containers, c)
 		} else {
 			groups[k].scalars++
+			groups[k].last = m
 		}
 	}
 	if len(groups) != len(o) {
@@ -408,6 +418,9 @@ func mergedOK(ms []rscp.Message, o map[string]interface{}) string {
 		}
 		switch len(g.containers) {
 		case 0:
+			if why := leafOK(g.last, out, true); why != "" {
+				return "jsonmerged: " + why
+			}
 			continue
 		case 1:
 			oo, ok := out.(map[string]interface{})
@@ -454,6 +467,8 @@ func simpleOK(ms []rscp.Message, v interface{}) string {
 			if why := simpleOK(c, val); why != "" {
 				return why
 			}
+		} else if why := leafOK(m, val, true); why != "" {
+			return "jsonsimple: " + why
 		}
 	}
 	return ""
@@ -476,6 +491,85 @@ func fullOK(ms []rscp.Message, v interface{}) string {
 			if why := fullOK(c, o["Value"]); why != "" {
 				return why
 			}
+		} else if why := leafOK(m, o["Value"], false); why != "" {
+			return "json: " + why
+		}
+	}
+	return ""
+}
+
+// leafOK: the printed value of a scalar is the value the device sent (Go-side oracle of C13, independent of the model):
+// numbers exactly (floats: the text parses back to the same bits), strings as they are (invalid UTF-8 replaced the way
+// encoding/json does), byte arrays as numbers (map formats) or base64 (format json), time stamps as the same instant —
+// except the documented rewrite of negative years to 1970 in the map formats.
+func leafOK(m rscp.Message, out interface{}, inMap bool) string {
+	num := func() (string, bool) {
+		n, ok := out.(json.Number)
+		return n.String(), ok
+	}
+	bad := func(want string) string {
+		return fmt.Sprintf("%s value %s is printed as %v", m.DataType, want, trunc(fmt.Sprint(out), 60))
+	}
+	switch v := m.Value.(type) {
+	case nil:
+		if out != nil {
+			return bad("null")
+		}
+	case bool:
+		if b, ok := out.(bool); !ok || b != v {
+			return bad(fmt.Sprint(v))
+		}
+	case int8, uint8, int16, uint16, int32, uint32, int64, uint64:
+		if n, ok := num(); !ok || n != fmt.Sprint(v) {
+			return bad(fmt.Sprint(v))
+		}
+	case float32:
+		n, ok := num()
+		f, err := strconv.ParseFloat(n, 32)
+		if !ok || err != nil || math.Float32bits(float32(f)) != math.Float32bits(v) {
+			return bad(fmt.Sprintf("%g (bits %08x)", v, math.Float32bits(v)))
+		}
+	case float64:
+		n, ok := num()
+		f, err := strconv.ParseFloat(n, 64)
+		if !ok || err != nil || math.Float64bits(f) != math.Float64bits(v) {
+			return bad(fmt.Sprintf("%g (bits %016x)", v, math.Float64bits(v)))
+		}
+	case string:
+		if s, ok := out.(string); !ok || s != string([]rune(v)) { // every invalid byte becomes U+FFFD, as encoding/json does it
+			return bad(fmt.Sprintf("%q", trunc(v, 40)))
+		}
+	case []byte:
+		if inMap {
+			arr, ok := out.([]interface{})
+			if !ok || len(arr) != len(v) {
+				return bad("byte array")
+			}
+			for i, b := range v {
+				if n, ok := arr[i].(json.Number); !ok || n.String() != fmt.Sprint(b) {
+					return bad("byte array")
+				}
+			}
+		} else if len(v) == 0 {
+			if s, ok := out.(string); out != nil && !(ok && s == "") {
+				return bad("empty byte array")
+			}
+		} else if s, ok := out.(string); !ok || s != base64.StdEncoding.EncodeToString(v) {
+			return bad("byte array")
+		}
+	case time.Time:
+		want := v
+		if inMap && v.Year() < 0 {
+			want = time.Unix(0, 0).UTC()
+		}
+		s, ok := out.(string)
+		t, err := time.Parse(time.RFC3339Nano, s)
+		if !ok || err != nil || !t.Equal(want) {
+			return bad(want.Format(time.RFC3339Nano))
+		}
+	case rscp.RscpError:
+		if s, ok := out.(string); !ok || s != v.String() {
+			return bad(v.String())
 		}
 	}
 	return ""
